@@ -84,6 +84,22 @@ func fiScan(prev fontscan.VerifIndex, dir string) (idx fontscan.VerifIndex, stat
 	return
 }
 
+var fiCachePath string
+
+func fiLoadFile(path string) (idx fontscan.VerifIndex, res string) {
+	res = "ok"
+	defer func() {
+		if r := recover(); r != nil {
+			res = "panic"
+		}
+	}()
+	idx, err := fontscan.VerifLoadFile(path)
+	if err != nil {
+		return nil, "err"
+	}
+	return idx, "ok"
+}
+
 func fiDeserialize(b []byte) (idx fontscan.VerifIndex, res string) {
 	res = "ok"
 	defer func() {
@@ -179,11 +195,13 @@ func fiExec(enc *json.Encoder, t int, ops []fiOp, contents map[int][]byte, readS
 			enc.Encode(map[string]interface{}{"t": t, "ev": "Refresh", "p": p, "inc": fiProject(inc, dir), "scr": fiProject(scr, dir), "reused": reused, "rescanned": rescanned})
 			index = inc
 		case "Save":
-			b, err := fontscan.VerifSerialize(index)
-			if err != nil {
+			// through the library's own file-level writer, onto the cache file that every earlier history
+			// of this process has written too (a cache file lives across runs and is rewritten in place)
+			if err := fontscan.VerifSaveFile(index, fiCachePath); err != nil {
 				panic(err)
 			}
-			cache, torn = b, false
+			cache, _ = os.ReadFile(fiCachePath)
+			torn = false
 			enc.Encode(map[string]interface{}{"t": t, "ev": "Save", "idx": fiProject(index, dir)})
 		case "Crash":
 			// a crash during the write leaves a prefix of the file
@@ -191,9 +209,10 @@ func fiExec(enc *json.Encoder, t int, ops []fiOp, contents map[int][]byte, readS
 				cache = cache[:rng.Intn(len(cache))]
 			}
 			torn = true
+			os.WriteFile(fiCachePath, cache, 0o600)
 			enc.Encode(map[string]interface{}{"t": t, "ev": "Crash", "len": len(cache)})
 		case "Load":
-			idx, res := fiDeserialize(cache)
+			idx, res := fiLoadFile(fiCachePath)
 			if res == "ok" {
 				index = idx
 			} else {
@@ -223,6 +242,21 @@ func fiExec(enc *json.Encoder, t int, ops []fiOp, contents map[int][]byte, readS
 			enc.Encode(ev)
 		}
 		try("full", len(ser), ser)
+		{
+			// the same read-back through the cache file (file-level writer and reader of the library)
+			ev := map[string]interface{}{"t": t, "ev": "Read", "kind": "file", "pos": len(ser), "res": "err", "same": false, "incd": "", "scrd": want}
+			if err := fontscan.VerifSaveFile(scr, fiCachePath); err == nil {
+				idx, res := fiLoadFile(fiCachePath)
+				ev["res"] = res
+				if res == "ok" {
+					ev["same"] = digestOf(fiProject(idx, dir)) == want
+					inc, st := fiScan(idx, dir)
+					ev["incd"] = digestOf(fiProject(inc, dir)) + st[:2]
+					ev["scrd"] = want + "ok"
+				}
+			}
+			enc.Encode(ev)
+		}
 		if !readSweep {
 			return
 		}
@@ -257,6 +291,12 @@ func fidxMain(args []string) error {
 	sweeps, _ := strconv.Atoi(args[4])
 	sw := newShardWriter(args[2], shards)
 	defer sw.close()
+	cdir, err := os.MkdirTemp("", "vfidxcache")
+	if err != nil {
+		return err
+	}
+	defer os.RemoveAll(cdir)
+	fiCachePath = filepath.Join(cdir, "cache", "index.cache")
 	contents := fiContents()
 	// digest of every content scanned alone (fact for the monitor)
 	dig := []string{}
